@@ -111,15 +111,20 @@ RowsUsed == \A r \in Rules : \E fv \in FVs : WF(fv) /\ Applicable(r.fault, fv) /
 
 \* ------------------------------------------------------------------ one schema's facts
 (* S = [gen, decl, props, libs, known, current, ranges, unitsOf, unitClasses, valueClasses, tags]
-     decl      : record  attribute name -> sequence of its property names (from the schema XML)
-     props     : sequence of property names defined by the schema
-     libs      : sequence of library names of the schema (empty for a standard schema)
-     known     : record  library key ("std" or a library name) -> sequence of released versions <<a, b, c>>
-     current   : record  library key -> version of that library in this schema
-     ranges    : record  library key -> <<lowest id, highest id>>
-     unitsOf   : record  unit class -> sequence of its unit names
-     unitClasses, valueClasses, tags : sequences of names *)
+     decl      : function  attribute name -> set of its property names (from the schema XML)
+     props     : set of property names defined by the schema
+     libs      : set of library names of the schema (empty for a standard schema)
+     known     : function  library key ("std" or a library name) -> set of released versions <<a, b, c>>
+     current   : function  library key -> version of that library in this schema
+     ranges    : function  library key -> <<lowest id, highest id>>
+     unitsOf   : function  unit class -> set of its unit names
+     unitClasses, valueClasses, tags : sets of names
+   Norm(J) builds S from the JSON form (sequences instead of sets). *)
 Range(s) == {s[i] : i \in 1..Len(s)}
+Norm(J) == [gen |-> J.gen, decl |-> [a \in DOMAIN J.decl |-> Range(J.decl[a])], props |-> Range(J.props), libs |-> Range(J.libs),
+            known |-> [l \in DOMAIN J.known |-> Range(J.known[l])], current |-> J.current, ranges |-> J.ranges,
+            unitsOf |-> [u \in DOMAIN J.unitsOf |-> Range(J.unitsOf[u])], unitClasses |-> Range(J.unitClasses),
+            valueClasses |-> Range(J.valueClasses), tags |-> Range(J.tags)]
 OldSectionProps == {"unitClassProperty", "unitProperty", "unitModifierProperty", "valueClassProperty"}
 DomKey(gen, sec) ==
    IF gen = "v83" THEN (CASE sec = "tag" -> "tagDomain" [] sec = "unit" -> "unitDomain" [] sec = "unitClass" -> "unitClassDomain"
@@ -129,8 +134,8 @@ DomKey(gen, sec) ==
 ElemKey(gen) == IF gen = "v83" THEN "elementDomain" ELSE "elementProperty"
 \* is attribute a declared for entries of section sec ?
 InDomain(S, sec, a) ==
-   LET P == IF a \in DOMAIN S.decl THEN Range(S.decl[a]) ELSE {} IN
-   IF sec = "attribute" THEN a \in Range(S.props) \/ ElemKey(S.gen) \in P
+   LET P == IF a \in DOMAIN S.decl THEN S.decl[a] ELSE {} IN
+   IF sec = "attribute" THEN a \in S.props \/ ElemKey(S.gen) \in P
    ELSE IF a \notin DOMAIN S.decl THEN FALSE
    ELSE IF ElemKey(S.gen) \in P THEN TRUE
    ELSE IF S.gen = "old" /\ sec = "tag" THEN P \cap OldSectionProps = {}
@@ -155,16 +160,16 @@ AllowedCharNames == {"letters", "blank", "digits", "alphanumeric",
 IsFault(S, e) ==
    CASE e.fault = "dupNode" -> TRUE
      [] e.fault = "undeclaredAttr" -> ~InDomain(S, e.fv.sec, e.attr)
-     [] e.fault = "badUnitClass" -> e.val \notin Range(S.unitClasses)
-     [] e.fault = "badValueClass" -> e.val \notin Range(S.valueClasses)
-     [] e.fault \in {"badSuggestedTag", "badRelatedTag"} -> e.val \notin Range(S.tags)
+     [] e.fault = "badUnitClass" -> e.val \notin S.unitClasses
+     [] e.fault = "badValueClass" -> e.val \notin S.valueClasses
+     [] e.fault \in {"badSuggestedTag", "badRelatedTag"} -> e.val \notin S.tags
      [] e.fault = "classAttrNonPlaceholder" -> ~e.fv.ph
      [] e.fault = "badDeprecatedFrom" ->
-            ~(e.lib \in DOMAIN S.known /\ e.ver \in Range(S.known[e.lib]) /\ Less(e.ver, S.current[e.lib]))
+            ~(e.lib \in DOMAIN S.known /\ e.ver \in S.known[e.lib] /\ Less(e.ver, S.current[e.lib]))
      [] e.fault = "nonPositiveFactor" -> ~e.numeric \/ e.num <= 0
-     [] e.fault = "badDefaultUnits" -> e.val \notin Range(S.unitsOf[e.cls])
+     [] e.fault = "badDefaultUnits" -> e.val \notin S.unitsOf[e.cls]
      [] e.fault = "badAllowedCharacter" -> e.val \notin AllowedCharNames /\ Len(e.val) # 1
-     [] e.fault = "foreignInLibrary" -> e.val \notin Range(S.libs)
+     [] e.fault = "foreignInLibrary" -> e.val \notin S.libs
      [] e.fault = "hedIdRange" -> ~e.numeric \/ (e.lib \in DOMAIN S.ranges /\ (e.num < S.ranges[e.lib][1] \/ e.num > S.ranges[e.lib][2]))
      [] e.fault = "hedIdChanged" -> e.prev # 0 /\ e.prev # e.num
      [] OTHER -> FALSE
